@@ -283,6 +283,8 @@ def gen_case(rng):
             'mode': 'router' if rng.random() < 0.10 else 'mapper', 'meta': meta}
     if not router_ok(case):
         case['mode'] = 'mapper'
+    if case['mode'] == 'router' and len(set(d['name'] for d in decls)) == len(decls) and rng.random() < 0.6:
+        add_prefixes(rng, case)
     if s is not None and rng.random() < 0.2:
         case['history'] = gen_history(rng, case, structs)
     return case
@@ -305,6 +307,45 @@ def gen_history(rng, case, structs):
         hist.append({'path': path, 'method': case['method'] if rng.random() < 0.8 else rng.choice(['GET', 'POST']),
                      'mutate': gen_ops(rng)})
     return hist
+
+
+PREFIXES = ['/api', 'api', '/api/', 'v2', '/a/b/', '/', '', '//x//', '/{lang}', '/\u00e9', 'api/v1', '/.']
+
+
+def add_prefixes(rng, case):
+    """Some declarations are made inside (nested) config.include(.., route_prefix=..); their patterns then more often end
+    in '/', and the path is re-instantiated under the prefix so that matches and near-misses (with / without the
+    trailing slash) stay frequent."""
+    chosen = None
+    for d in case['decls']:
+        if rng.random() < 0.6:
+            d['levels'] = [rng.choice(PREFIXES) for _ in range(rng.choice([1, 1, 1, 2, 3]))]
+            r = rng.random()
+            if r < 0.35 and not d['pattern'].endswith('/') and '*' not in d['pattern']:
+                d['pattern'] += '/'
+            elif r < 0.42:
+                d['pattern'] = ''
+                d['inherit'] = 1 if rng.random() < 0.6 else 0
+            elif r < 0.5:
+                d['pattern'] = d['pattern'].lstrip('/')
+            chosen = chosen or d
+    if chosen is not None and case['path'] is not None and rng.random() < 0.7:
+        pre = ''
+        for lv in chosen['levels']:
+            pre = (pre.rstrip('/') + '/' + lv.lstrip('/')).strip('/')
+        try:
+            old = case['path'].encode('latin-1').decode('utf-8')
+        except UnicodeError:
+            return
+        new = ('/' + pre if pre else '') + '/' + old.lstrip('/')
+        r = rng.random()
+        if r < 0.25 and new.endswith('/'):
+            new = new[:-1]
+        elif r < 0.4 and not new.endswith('/'):
+            new += '/'
+        case['path'] = new.encode('utf-8').decode('latin-1')
+        for h in case.get('history') or []:
+            h['path'] = case['path']
 
 
 def router_ok(case):
@@ -358,6 +399,18 @@ def targeted(rng):
             for mode in ('mapper', 'router'):
                 c = _case([p], b, mode=mode)
                 c['history'] = [{'path': c['path'], 'method': 'GET', 'mutate': ops}]
+                yield c
+    # route prefixes (Configurator.include): trailing slash of the declared pattern, nested prefixes, inherit_slash
+    for levels in (['/api'], ['api/'], ['/api', 'v2'], ['/']):
+        for pats in (['/items/', '/items'], ['/items', '/items/'], ['/{name}/', '/{name}'], ['items/', '/*rest'], ['', '/x']):
+            for tail in ('/items', '/items/', '', '/', '/x'):
+                pre = ''
+                for lv in levels:
+                    pre = (pre.rstrip('/') + '/' + lv.lstrip('/')).strip('/')
+                c = _case(pats, ('/' + pre if pre else '') + tail, mode='router')
+                for d in c['decls']:
+                    d['levels'] = list(levels)
+                c['decls'][0]['inherit'] = 1 if c['decls'][0]['pattern'] == '' else 0
                 yield c
     # small-scope enumeration over {a, /, ., newline}
     alpha = ['a', '/', '.', '\n']
